@@ -10,7 +10,8 @@ RULE = ("readers R in 1..3 (real threads running the real SharedDictDataset.__ge
         "programs of <= 2 accesses over indices {0,1} (forced to collide) with an optional clear at any position of any reader, "
         "payload types int / (bytes,int) / tensor / dict / list, post-cache transform none / pure / in-place; every schedule at "
         "shared-dict-operation granularity with preemption bound 0,1,2,... (unbounded where the count allows); sequential "
-        "histories (no concurrency, readers take turns): all sequences of (reader, op) with op in {get0, get1, clear} of length <= 4 "
+        "histories (no concurrency, readers take turns): all sequences of (reader, op) with op in {get0, get1, clear, release = the "
+        "reader object is garbage collected} of length <= 4 "
         "for 1 and 2 readers and <= 3 for 3 readers, with exact load accounting over all readers; readers are copies of ONE cache "
         "object (fork picture: private attributes duplicated, manager dicts shared), also with a wrapped dataset whose first load of "
         "every sample fails (the error must reach the caller, nothing may be cached, the retry loads); states = distinct final "
@@ -249,9 +250,17 @@ def sequential_check(ops, kind, tkind, R=1):
     with patched(None):
         readers = make_readers(R, kind, tkind)
         cached = set()
+        loads_done = {}
         for k, (who, op) in enumerate(ops):
             r = readers[who]
-            before = [len(x.dataset.loads) for x in readers]
+            if op == "release":
+                # this reader object goes away (a worker exits, a copy is garbage collected): the shared cache is not its to clear
+                loads_done[who] = tuple(r.dataset.loads)
+                readers[who] = r = None
+                import gc
+                gc.collect(0)
+                continue
+            before = [len(x.dataset.loads) if x is not None else 0 for x in readers]
             if op == "clear":
                 try:
                     r.dispose()
@@ -275,7 +284,7 @@ def sequential_check(ops, kind, tkind, R=1):
             if not same(v, apply_expected(tkind, payload(kind, op))):
                 return "value_differs_from_wrapped_dataset", f"ops {ops} step {k}: {v!r}"
             loaded = r.dataset.loads[before[who]:]
-            if any(len(x.dataset.loads) != b for i, (x, b) in enumerate(zip(readers, before)) if i != who):
+            if any(len(x.dataset.loads) != b for i, (x, b) in enumerate(zip(readers, before)) if i != who and x is not None):
                 return "other_reader_loaded", f"ops {ops} step {k}"
             if op in cached and loaded:
                 return "cached_sample_loaded_again", (f"ops {ops} step {k}: sample {op} was loaded again by reader {who} without a "
@@ -283,7 +292,7 @@ def sequential_check(ops, kind, tkind, R=1):
             if op not in cached and loaded != [op]:
                 return "uncached_sample_not_loaded_exactly_once", f"ops {ops} step {k}: reader {who} loads {loaded}"
             cached.add(op)
-        return None, tuple(tuple(x.dataset.loads) for x in readers)
+        return None, tuple(tuple(x.dataset.loads) if x is not None else loads_done[i] for i, x in enumerate(readers))
 
 
 def programs_for(R, tier):
@@ -345,11 +354,21 @@ def seq_task(args):
     kind, tkind = args
     p = Partial()
     for R, maxlen in ((1, 4), (2, 4), (3, 3)):
-        alphabet = [(who, op) for who in range(R) for op in (0, 1, "clear")]
+        alphabet = [(who, op) for who in range(R) for op in ((0, 1, "clear", "release") if R > 1 else (0, 1, "clear"))]
         for L in range(1, maxlen + 1):
             for ops in itertools.product(alphabet, repeat=L):
                 if R > 1 and len({w for w, _ in ops}) < 2:
                     continue  # only one reader acts: already covered with fewer readers
+                gone = set()
+                valid = True
+                for w, o in ops:
+                    if w in gone:
+                        valid = False
+                        break
+                    if o == "release":
+                        gone.add(w)
+                if not valid or (ops and ops[-1][1] == "release"):
+                    continue  # a released reader cannot act; a release at the very end is unobservable
                 for flaky in ((False, True) if (R <= 2 and kind in ("int", "list")) else (False,)):
                     p.evaluations += 1
                     p.traces += 1
@@ -437,7 +456,7 @@ def run(run):
 
 def replay(case):
     if case.get("sequential"):
-        ops = tuple((int(o[0]), o[1] if o[1] == "clear" else int(o[1])) if isinstance(o, list) else (0, o if o == "clear" else int(o))
+        ops = tuple((int(o[0]), o[1] if o[1] in ("clear", "release") else int(o[1])) if isinstance(o, list) else (0, o if o == "clear" else int(o))
                     for o in case["ops"])
         FLAKY[0] = bool(case.get("flaky"))
         try:
